@@ -1127,13 +1127,13 @@ func (r httpReq) usesAssetlessBalance() bool {
 	return bytes.Contains(r.Body, []byte(`"balance"`)) || strings.Contains(r.Query.Get("query"), `"balance"`)
 }
 
-// reproduceAPIBalanceNoAsset: the documented v1 request GET /{ledger}/accounts?balance=0 is answered 500 as soon as an account holds two assets.
+// reproduceAPIBalanceNoAsset: the documented v1 request GET /{ledger}/accounts?balance=0&balanceOperator=gte is answered 500 as soon as an account holds two assets.
 func reproduceAPIBalanceNoAsset() bool {
 	defer func() { _ = recover() }()
 	a := newAPIWorld(&quietT{}, nil)
 	defer a.w.Close()
 	a.w.CreateTx(a.l, TxRequest{Postings: ledger.Postings{ledger.NewPosting("world", "bank", "EUR", big.NewInt(1))}})
-	rec := httpReq{Method: "GET", Path: "/l1/accounts", Query: url.Values{"balance": {"0"}}}.do(a.router)
+	rec := httpReq{Method: "GET", Path: "/l1/accounts", Query: url.Values{"balance": {"0"}, "balanceOperator": {"gte"}}}.do(a.router)
 	return rec != nil && rec.Code == http.StatusInternalServerError
 }
 
